@@ -1,0 +1,11 @@
+//go:build verif
+
+package sourcebundle
+
+import "github.com/hashicorp/go-slug/sourceaddrs"
+
+// VerifBaseAddr (build tag "verif" only) tells a scripted dependency finder
+// which source address is being analysed.
+func (d *Dependencies) VerifBaseAddr() sourceaddrs.RemoteSource {
+	return d.baseAddr
+}
